@@ -42,7 +42,17 @@ def lock_rule(chk, rules):
     fns = {}
     for fo in f["functions"] + f2["functions"]:
         fn = cfg.Fn(fo)
-        fns.setdefault(fn.name, fn)
+        if fn.name in fns and (fns[fn.name].file, fns[fn.name].line) != (fn.file, fn.line):
+            # an overload (JitAllocator::write has two): analysed under its own key, calls by name reach every overload
+            k_ = 2
+            while "%s#%d" % (fn.name, k_) in fns:
+                k_ += 1
+            fns["%s#%d" % (fn.name, k_)] = fn
+        else:
+            fns.setdefault(fn.name, fn)
+
+    def overloads(q):
+        return [k for k in fns if k == q or k.startswith(q + "#")]
     for c in CLASSES:
         chk.need(c in f["records"], "class %s not found" % c)
 
@@ -102,7 +112,7 @@ def lock_rule(chk, rules):
             elif x["k"] in ("call", "mcall") and x.get("callee") == fill_callee:
                 what = "fill of allocator-owned memory"
             callee = x.get("callee") if x["k"] in ("call", "mcall", "opcall") else None
-            if what is None and not (callee and callee in fns and callee != name):
+            if what is None and not (callee and callee in fns and callee != name.split("#")[0]):
                 continue
             st = m.before(i)
             if st is None:
@@ -133,9 +143,11 @@ def lock_rule(chk, rules):
             return []
         out = [(name, i, what) for (i, what) in direct[name]]
         for (i, callee) in calls[name]:
-            sub = unlocked(callee, stack + (name,))
-            if sub:
-                out.append((name, i, "call of %s which reaches %s" % (short(callee), sub[0][2])))
+            for ck in overloads(callee):
+                sub = unlocked(ck, stack + (name,))
+                if sub:
+                    out.append((name, i, "call of %s which reaches %s" % (short(callee), sub[0][2])))
+                    break
         memo[name] = out
         return out
 
@@ -144,7 +156,9 @@ def lock_rule(chk, rules):
         q = "asmjit::" + ent
         chk.need(q in fns, "thread-safe entry point %s not found" % ent)
         nentries += 1
-        bad = unlocked(q)
+        bad = []
+        for ck in overloads(q):
+            bad += unlocked(ck)
         fn = fns[q]
         if not bad:
             chk.ob(R, ent, True, loc="%s:%d" % (fn.file.replace("/repo/", ""), fn.line))
